@@ -48,6 +48,8 @@ def main():
         import re
 
         demo_txt = re.sub(r"/tmp/seedwt/[A-Za-z0-9_]+", wt, demo_txt)
+        if os.path.abspath(src).startswith("/verif/seeded/"):
+            demo_txt = demo_txt.replace('"/repo"', f'"{wt}"').replace("'/repo'", f"'{wt}'")
         demo_local = os.path.join(wt, "_seed_demo.py")
         open(demo_local, "w", encoding="utf-8").write(demo_txt)
         r = sh([PY, demo_local], cwd=wt, env=env, timeout=600)
@@ -78,9 +80,10 @@ def main():
         if confirmed and not a.no_store:
             dst = f"/verif/seeded/{a.prop}-{a.name}"
             os.makedirs(dst, exist_ok=True)
-            shutil.copy(patch, os.path.join(dst, "patch.diff"))
-            open(os.path.join(dst, "demo.py"), "w", encoding="utf-8").write(
-                re.sub(r"/tmp/seedwt/[A-Za-z0-9_]+", "/repo", open(demo, encoding="utf-8").read()))
+            if os.path.abspath(src) != os.path.abspath(dst):
+                shutil.copy(patch, os.path.join(dst, "patch.diff"))
+                open(os.path.join(dst, "demo.py"), "w", encoding="utf-8").write(
+                    re.sub(r"/tmp/seedwt/[A-Za-z0-9_]+", "/repo", open(demo, encoding="utf-8").read()))
             meta = {}
             mp = os.path.join(src, "meta.json")
             if os.path.exists(mp):
